@@ -316,9 +316,49 @@ def fault_scenarios(ctx, n):
         ops += [T.api("GET", "/version"), {"op": "dial", "id": "ok", "addr": "127.0.0.1:%d" % px}, {"op": "send", "id": "ok", "n": 64},
                 {"op": "recv", "id": "ok", "up": "ok", "n": 64, "ms": 1500}]
         cases.append({"ops": ops, "group": g, "fault": fault})
+    # a proxy is stopped (deleted / disabled / re-addressed / replaced by populate) while a toxic that withholds the end of the stream
+    # (slow_close, reset_peer, latency with data in flight) still holds one of its connections: the request must return and the API,
+    # including every request that looks a proxy up, must keep answering
+    nbase = len(cases)
+    for i in range(max(4, n // 2)):
+        g = i % 6
+        b = T.port_base(g)
+        up, px = b + 5, b + 6
+        holder = [{"type": "slow_close", "attributes": {"delay": 600000}}, {"type": "reset_peer", "attributes": {"timeout": 600000}},
+                  {"type": "latency", "attributes": {"latency": 600000}}, {"type": "slow_close", "stream": "upstream", "attributes": {"delay": 600000}}][i % 4]
+        stopper = [T.api("DELETE", "/proxies/p"), T.api("POST", "/proxies/p", {"enabled": False}),
+                   T.api("POST", "/proxies/p", {"listen": "127.0.0.1:%d" % (b + 7)}),
+                   T.api("POST", "/populate", [{"name": "p", "listen": "127.0.0.1:%d" % px, "upstream": "127.0.0.1:%d" % (b + 8)}])][(i // 4) % 4]
+        stopper["ms"] = 4000
+        ops = [{"op": "upstream", "id": "u", "port": up, "mode": "echo"},
+               T.api("POST", "/proxies", {"name": "p", "listen": "127.0.0.1:%d" % px, "upstream": "127.0.0.1:%d" % up}),
+               T.api("POST", "/proxies", {"name": "other", "listen": "127.0.0.1:%d" % (b + 9), "upstream": "127.0.0.1:%d" % up}),
+               T.api("POST", "/proxies/p/toxics", holder),
+               {"op": "dial", "id": "c", "addr": "127.0.0.1:%d" % px}, {"op": "send", "id": "c", "n": 20}, {"op": "sleep", "ms": 30},
+               stopper,
+               dict(T.api("GET", "/version"), ms=3000), dict(T.api("GET", "/proxies"), ms=3000), dict(T.api("GET", "/proxies/other"), ms=3000),
+               {"op": "dial", "id": "ok", "addr": "127.0.0.1:%d" % (b + 9)}, {"op": "send", "id": "ok", "n": 64},
+               {"op": "recv", "id": "ok", "up": "ok", "n": 64, "ms": 1500}]
+        cases.append({"ops": ops, "group": g, "fault": "stop_while_%s_holds_a_connection" % holder["type"], "held": True})
     results = T.run_tcp(ctx, cases, "c07")
     fails = []
     for c, r in zip(cases, results):
+        if c.get("held") and isinstance(r, list) and not T.env_broken(r):
+            rp = {"kind": "failing-input", "tcp": True, "case": c, "observed": r}
+            st = [x for x in r if x.get("op") == "api"]
+            stuck = [x for x in st if x.get("status") == -1]
+            if stuck:
+                which = c["ops"][r.index(stuck[0])]
+                fails.append(("api-wedged-by-held-connection", "%s %s did not return within %d s while a %s toxic held a connection of the proxy (then: %s)"
+                              % (which.get("method"), which.get("path"), which.get("ms", 0) // 1000, c["fault"].split("_")[2] + "_" + c["fault"].split("_")[3],
+                                 ", ".join("%s %s -> %s" % (c["ops"][r.index(x)].get("method"), c["ops"][r.index(x)].get("path"), x.get("status")) for x in st[3:])), rp))
+            elif not (r[-1].get("ok") and r[-1].get("content_ok")):
+                fails.append(("proxy-down", "after a proxy was stopped while a toxic held one of its connections, another proxy does not serve (%s)" % r[-1].get("end"), rp))
+            continue
+        if c.get("held"):
+            if isinstance(r, dict):
+                fails.append(("process-died", "the process crashed when a proxy was stopped while a toxic held a connection", {"kind": "failing-input", "tcp": True, "case": c, "observed": r}))
+            continue
         rp = {"kind": "failing-input", "tcp": True, "case": c, "observed": r}
         if T.env_broken(r):
             continue
